@@ -659,6 +659,7 @@ parse_transport_fast(struct __sk_buff *skb, __u32 link_h_len,
 			tcph->rst = tcph_ptr->rst;
 			tcph->syn = tcph_ptr->syn;
 			tcph->fin = tcph_ptr->fin;
+			tcph->ack = tcph_ptr->ack;
 			tcph->window = tcph_ptr->window;
 			*listener_l4proto = tcp_listener_l4proto(tcph_ptr);
 			return 0;
@@ -760,6 +761,7 @@ parse_transport_fast(struct __sk_buff *skb, __u32 link_h_len,
 			tcph->rst = tcph_ptr->rst;
 			tcph->syn = tcph_ptr->syn;
 			tcph->fin = tcph_ptr->fin;
+			tcph->ack = tcph_ptr->ack;
 			tcph->window = tcph_ptr->window;
 			*listener_l4proto = tcp_listener_l4proto(tcph_ptr);
 			return 0;
